@@ -1634,6 +1634,10 @@ private:
                    std::chrono::system_clock::time_point expiry) const
   {
     std::unique_lock<std::shared_mutex> lock(_cacheMutex);
+    if (_config.maxCacheSize == 0)
+    {
+      return; // cache disabled (and erase(begin()) on an empty map is undefined)
+    }
     if (_cache.size() >= _config.maxCacheSize)
     {
       // Simple LRU eviction - remove first element
